@@ -5,12 +5,14 @@ package hermes
 // model (values are read from the JSON file named by VERIF_REPLAY).
 
 import (
+	"bufio"
 	"encoding/json"
 	"fmt"
 	"io"
 	"os"
 	"reflect"
 	"strconv"
+	"strings"
 )
 
 type vReplayFile struct {
@@ -225,4 +227,9 @@ func vIntText(name string, idx ...int) string { return strconv.Itoa(vInt(name, i
 // vFieldName: name of the i-th field of the struct p points to.
 func vFieldName(p interface{}, i int) string {
 	return reflect.TypeOf(p).Elem().Field(i).Name
+}
+
+// vScanner: a scanner over the first n of the given lines (a text file with one line feed per line).
+func vScanner(lines []string, n int) *bufio.Scanner {
+	return bufio.NewScanner(strings.NewReader(strings.Join(lines[:n], "\n") + "\n"))
 }
